@@ -39,6 +39,31 @@ def check_peak_wiring(prog: Program, res: Result, R: str) -> None:
             res.touch(fi)
             b = astq.bind_args(prog.func(q), c)
             st = enclosing_stmt(c)
+            # the maps the finder searches are the network's output itself (detached at most): a dtype / value conversion in
+            # between (half precision, clamping, smoothing) changes which cell is the maximum and what value is reported
+            first = prog.func(q).pos_params[0]
+            mv = b.get(first)
+            me = astq.expand_at(fi.node, mv, st) if mv is not None else None
+            core = astq.peel(me, "detach") if me is not None else None
+            is_param = isinstance(core, ast.Name) and core.id in fi.params   # a helper that receives the maps (checked at its caller)
+            is_net = core is not None and any(isinstance(x, ast.Call) and norm(x.func) == "self.torch_model" for x in ast.walk(core)) and (
+                (isinstance(core, ast.Call) and norm(core.func) == "self.torch_model")
+                or (isinstance(core, ast.Subscript) and isinstance(core.value, ast.Call) and norm(core.value.func) == "self.torch_model"))
+            res.ob(R, is_param or is_net, fi.qualname, f"{q.split(':')[1]} searches the network output itself",
+                   f"`{short(c, 40)}` searches `{short(me, 70) if me is not None else '?'}`: the confidence maps are converted between the network and the peak finder, "
+                   "so the reported value / cell is not the maximum of the map the network produced", f"{fi.module.relpath}:{c.lineno}")
+            if is_param:
+                # ... and the caller hands that helper the network output
+                for f2 in prog.all_functions():
+                    for c2, q2 in prog.calls_in(f2):
+                        if q2 != fi.qualname:
+                            continue
+                        b2 = astq.bind_args(fi, c2, skip_self=True)
+                        e2 = astq.expand_at(f2.node, b2.get(core.id), enclosing_stmt(c2)) if b2.get(core.id) is not None else None
+                        k2 = astq.peel(e2, "detach") if e2 is not None else None
+                        ok2 = (isinstance(k2, ast.Call) and norm(k2.func) == "self.torch_model") or (isinstance(k2, ast.Subscript) and isinstance(k2.value, ast.Call) and norm(k2.value.func) == "self.torch_model")
+                        res.ob(R, ok2, f2.qualname, f"{fi.name} receives the network output itself",
+                               f"`{short(c2, 40)}` hands `{short(e2, 70) if e2 is not None else '?'}` to {fi.name}: the maps are converted before peak finding", f"{f2.module.relpath}:{c2.lineno}")
             for p, want in PARAMS.items():
                 v = b.get(p)
                 got = norm(astq.expand_at(fi.node, v, st)) if v is not None else None
